@@ -145,13 +145,29 @@ class Splitter:
         def _is_escaped():
             return currently_quote_escaped or num_open_curls > 0
 
+        # Curly brackets opened (and not yet closed) within a quote-escaped value
+        num_open_curls_in_quotes = 0
+
         # iterate over marks until we find end of field
         while True:
             next_mark = self._next_mark(accept_eof=False)
 
             # Handle "escape" characters
             if next_mark.group(0) == '"' and not num_open_curls > 0:
+                if currently_quote_escaped and num_open_curls_in_quotes > 0:
+                    # A quote within curly brackets does not end a quoted value
+                    continue
                 currently_quote_escaped = not currently_quote_escaped
+                continue
+            elif next_mark.group(0) == "{" and currently_quote_escaped:
+                num_open_curls_in_quotes += 1
+                continue
+            elif (
+                next_mark.group(0) == "}"
+                and currently_quote_escaped
+                and num_open_curls_in_quotes > 0
+            ):
+                num_open_curls_in_quotes -= 1
                 continue
             elif next_mark.group(0) == "{" and not currently_quote_escaped:
                 num_open_curls += 1
